@@ -8,6 +8,12 @@
 (* SavableFuture.recreate_from, Savable.persist / _ensure_persist_configured),                     *)
 (* src/plumpy/loaders.py (DefaultObjectLoader, get/set_object_loader).                             *)
 (*                                                                                                 *)
+(* One instance is a short SESSION: (a prior bundle loaded), (another class of the chain used), the  *)
+(* object under test saved, its saved state tampered, the original mutated, the state loaded and    *)
+(* saved again.  Every load of a session goes through the load context the CALLER supplies: None,   *)
+(* or ONE LoadSaveContext object handed to all of them; what a load leaves in that object is part   *)
+(* of the result of the load (`ctx`), and the next load of the session starts from it.              *)
+(*                                                                                                 *)
 (* Two formulations.                                                                               *)
 (*   OPERATIONAL: python objects live in a heap (a sequence of uniform entries: objects, futures,  *)
 (*   mutable value cells, saved-state dicts); `SaveAny` and `LoadAny` mirror the python clause by  *)
@@ -30,7 +36,11 @@ CONSTANTS
   MaxChain,  \* longest inheritance chain K1 <- K2 <- K3
   Kinds,     \* member kinds on offer
   Loaders,   \* loader configurations on offer
-  Unknowns,  \* ways of making a class name unknown (besides "none")
+  Unknowns,  \* ways of making a class name - or the recorded loader - unknown (besides "none")
+  Ctxs,      \* how a load context WITHOUT loader may be supplied besides None ("asis"): "shared" = one loader-less
+             \* LoadSaveContext object handed to every load of the session
+  Priors,    \* which bundle may be loaded through the session's load context BEFORE the one under test (besides none):
+             \* "plain" (saved without a save context), "custom" (saved with LoadSaveContext(loader=CustomLoader()))
   Ways,      \* how a class of the chain may declare members: "deco" (@auto_persist), "hook" (persist() classmethod calling
              \* cls.auto_persist), besides declaring nothing
   Orders,    \* which OTHER class of the chain may be used (an instance saved and loaded) before the instance under test:
@@ -44,10 +54,11 @@ VARIABLES phase, inst, out
 vars == <<phase, inst, out>>
 
 AllKinds    == {"value", "none", "method", "tuple", "sav1", "sav2", "futP", "futR", "futT", "futE", "futC"}
-AllLoaders  == {"default", "global", "persave", "ctxboth"}
-AllUnknowns == {"noattr", "malformed", "nocls", "nometa", "nested"}
+AllLoaders  == {"default", "global", "persave", "ctxboth", "peralias"}
+AllUnknowns == {"noattr", "malformed", "nocls", "nometa", "nested", "noldr", "badldr"}
 ASSUME Names \subseteq {"a", "b", "c"} /\ Kinds \subseteq AllKinds /\ Loaders \subseteq AllLoaders /\ Unknowns \subseteq AllUnknowns
 ASSUME Ways \subseteq {"deco", "hook"} /\ Orders \subseteq {"parent", "child"}
+ASSUME Ctxs \subseteq {"shared"} /\ Priors \subseteq {"plain", "custom"}
 
 \* members of the chain classes, then members of the helper classes N1 (x, m) and N2 (x, s, f)
 NameOrder == <<"a", "b", "c", "x", "m", "s", "f">>
@@ -147,24 +158,36 @@ PersistedOp(ch, t) == PersistedNow(ClassStore(ch), ch, ChainClass(t))
 \* DECLARATIVE: a class persists what it and its ancestors declared, by decorator or by hook
 PersistedDecl(ch, t) == UNION {ch[j].names : j \in 1..t}
 DecoratedDecl(ch, t) == UNION {ch[j].names : j \in {k \in 1..t : ch[k].way = "deco"}}
-ClassNames(ch) == {ChainClass(t) : t \in 1..Len(ch)} \cup {"N1", "N2"}
+\* the module always holds L1, L2, L3: Savables that declare nothing, living under the LEGACY names of the chain classes
+\* (what the default loader finds under the names the alias loader writes)
+StandIns == {"L1", "L2", "L3"}
+ClassNames(ch) == {ChainClass(t) : t \in 1..Len(ch)} \cup {"N1", "N2"} \cup StandIns
 
 (* ----------------------------------------------------------------------------------------------- *)
 (* object loaders                                                                                  *)
 (* ----------------------------------------------------------------------------------------------- *)
 \* loader objects: "D" a DefaultObjectLoader ('module:name'), "C" an instance of the custom loader (its own,
-\* disjoint identifier scheme), "class:CustomLoader" the custom loader CLASS (not an instance), "none"
-Scheme(l) == IF l = "D" THEN "D" ELSE "C"
-Identify(l, cls) == <<Scheme(l), cls>>                         \* ObjectLoader.identify_object
-Loadable(ct) == ct \cup {"SavableFuture", "CustomLoader"}
+\* disjoint identifier scheme), "A" an instance of the alias loader (a DefaultObjectLoader that keeps writing the stable
+\* legacy name L<i> for the chain class K<i>: identifiers in the DEFAULT loader's format, which the default loader
+\* resolves too - to the stand-in of that name), "class:CustomLoader" the custom loader CLASS (not an instance), "none"
+Scheme(l) == IF l \in {"D", "A"} THEN "D" ELSE "C"
+Legacy(c) == CASE c = "K1" -> "L1" [] c = "K2" -> "L2" [] c = "K3" -> "L3" [] OTHER -> c
+Modern(n) == CASE n = "L1" -> "K1" [] n = "L2" -> "K2" [] n = "L3" -> "K3" [] OTHER -> n
+Identify(l, cls) == <<Scheme(l), IF l = "A" THEN Legacy(cls) ELSE cls>>      \* ObjectLoader.identify_object
+LoaderClass(l) == CASE l = "C" -> "CustomLoader" [] l = "A" -> "AliasLoader" [] OTHER -> "DefaultObjectLoader"
+LoaderClasses == {"CustomLoader", "AliasLoader"}
+InstanceOf(c) == CASE c = "CustomLoader" -> "C" [] c = "AliasLoader" -> "A" [] OTHER -> "none"      \* cls(): only loader classes are ever recorded
+Loadable(ct) == ct \cup {"SavableFuture"} \cup LoaderClasses
 LoadObject(l, ident, ct) ==                                    \* ObjectLoader.load_object -> [cls, exc]
-  IF l \notin {"D", "C"} THEN [cls |-> "-", exc |-> "TypeError"]      \* unbound method called on the class
+  IF l \notin {"D", "C", "A"} THEN [cls |-> "-", exc |-> "TypeError"]      \* unbound method called on the class
+  ELSE IF l = "A" /\ ident[1] = "D" /\ ident[2] \in StandIns                \* a legacy name: the class that carries it today
+       THEN IF Modern(ident[2]) \in ct THEN [cls |-> Modern(ident[2]), exc |-> "-"] ELSE [cls |-> "-", exc |-> "ValueError"]
   ELSE IF ident[1] = Scheme(l) /\ ident[2] \in Loadable(ct) THEN [cls |-> ident[2], exc |-> "-"]
   ELSE [cls |-> "-", exc |-> "ValueError"]
 
 \* what a loader configuration means: global loader, loader of the save context, loader of the load context
 Global(cfg)  == IF cfg = "global" THEN "C" ELSE "D"
-SaveCtx(cfg) == IF cfg \in {"persave", "ctxboth"} THEN "C" ELSE "none"
+SaveCtx(cfg) == IF cfg \in {"persave", "ctxboth"} THEN "C" ELSE IF cfg = "peralias" THEN "A" ELSE "none"
 LoadCtx(cfg) == IF cfg = "ctxboth" THEN "C" ELSE "none"
 
 (* ----------------------------------------------------------------------------------------------- *)
@@ -253,7 +276,7 @@ SaveAny(h, st, oid, sctx, G, ch) ==
   LET o      == h[oid]
       did    == Len(h) + 1
       \* `if save_context.loader is not None: set_custom_meta(out_state, 'object_loader', default.identify_object(loader class))`
-      user   == IF sctx # "none" THEN Identify(G, "CustomLoader") ELSE NoIdent
+      user   == IF sctx # "none" THEN Identify(G, LoaderClass(sctx)) ELSE NoIdent
       loader == IF sctx # "none" THEN sctx ELSE G
       meta   == [NoMeta EXCEPT !.has = TRUE, !.ldrUser = user, !.cls = Identify(loader, o.cls)]     \* _set_class_name
       h1     == Append(h, [Entry("dict", "-", "-") EXCEPT !.meta = meta])
@@ -265,22 +288,28 @@ SaveAny(h, st, oid, sctx, G, ch) ==
 (* ----------------------------------------------------------------------------------------------- *)
 (* OPERATIONAL: Savable.load                                                                       *)
 (* ----------------------------------------------------------------------------------------------- *)
-\* _ensure_object_loader(context, saved_state) -> [ldr, exc, dev]
+\* _ensure_object_loader(context, saved_state) -> [ldr, exc, dev, ctx]
+\* lctx = what the caller handed in: "absent" (None: `context = LoadSaveContext()`, a fresh object), "none" (a LoadSaveContext
+\* object without loader), else the loader of the caller's context object.  ldr = the loader of the context the load goes on
+\* with; ctx = the loader attribute of the CALLER's context object afterwards: the resolved loader goes into a COPY
+\* (`return context.copyextend(loader=loader)`), the caller's object is left as it was.
 EnsureLoader(d, lctx, G, ct) ==
-  IF lctx # "none" THEN [ldr |-> lctx, exc |-> "-", dev |-> {}]                  \* 1) the one already in the context
+  IF lctx \notin {"absent", "none"} THEN [ldr |-> lctx, exc |-> "-", dev |-> {}, ctx |-> lctx]     \* 1) the one already in the context
   ELSE LET \* 2) get_custom_meta(saved_state, 'object_loader'): as written saved_state['!!meta'][name], although
            \*    set_custom_meta wrote saved_state['!!meta']['user'][name]
            key  == IF ~d.meta.has THEN NoIdent ELSE IF "FL1" \in Fixes THEN d.meta.ldrUser ELSE d.meta.ldrTop
            miss == "FL1" \notin Fixes /\ d.meta.has /\ d.meta.ldrUser # NoIdent /\ d.meta.ldrTop = NoIdent
            dv   == IF miss THEN {"D19a"} ELSE {}
-       IN IF key = NoIdent THEN [ldr |-> G, exc |-> "-", dev |-> dv]             \* 3) the global default
-          ELSE LET c == LoadObject(G, key, ct) IN                                \* default_loader.load_object(identifier)
-               IF c.exc # "-" THEN [ldr |-> "none", exc |-> c.exc, dev |-> dv]
-               ELSE IF "FL2" \in Fixes THEN [ldr |-> "C", exc |-> "-", dev |-> dv]            \* an instance of that class
-               ELSE [ldr |-> "class:" \o c.cls, exc |-> "-", dev |-> dv \cup {"D19a"}]        \* as written: the class itself
+       IN IF key = NoIdent THEN [ldr |-> G, exc |-> "-", dev |-> dv, ctx |-> lctx]             \* 3) the global default (except ValueError: nothing recorded)
+          ELSE LET c == LoadObject(G, key, ct) IN                                \* else: default_loader.load_object(identifier)
+               IF c.exc # "-" THEN [ldr |-> "none", exc |-> c.exc, dev |-> dv, ctx |-> lctx]  \* a recorded loader that cannot be found is NOT "nothing recorded"
+               ELSE IF "FL2" \in Fixes THEN [ldr |-> InstanceOf(c.cls), exc |-> "-", dev |-> dv, ctx |-> lctx]      \* an instance of that class
+               ELSE [ldr |-> "class:" \o c.cls, exc |-> "-", dev |-> dv \cup {"D19a"}, ctx |-> lctx]               \* as written: the class itself
 
 RECURSIVE LoadAny(_, _, _, _, _, _), LoadMembers(_, _, _, _, _, _, _, _, _)
 LR(h, st, r, exc, dev, used) == [h |-> h, st |-> st, r |-> r, exc |-> exc, dev |-> dev, used |-> used]
+\* the result of a top-level load: also what it left in the caller's context object
+WithCtx(r, c) == [h |-> r.h, st |-> r.st, r |-> r.r, exc |-> r.exc, dev |-> r.dev, used |-> r.used, ctx |-> c]
 
 \* Savable.load_members / _get_value
 LoadMembers(h, st, nid, sid, names, ldr, G, ch, dev) ==
@@ -306,13 +335,16 @@ RecreateFuture(h, st, sid, ldr, dev) ==
               [] OTHER                         -> [f EXCEPT !.res = NoneV]                  \* pending | cancel()
   IN LR(Append(h, g), st, id, "-", dev, ldr)
 
-\* Savable.load(saved_state, load_context); lctx = load_context.loader or "none" -> [h, st, r, exc, dev, used]
+\* Savable.load(saved_state, load_context); lctx = "absent" (None) | "none" (a context without loader) | load_context.loader
+\* -> [h, st, r, exc, dev, used, ctx]
 \* used = the loader whose load_object resolved (or tried to resolve) the class name of this saved state
+\* ctx  = the loader attribute of the caller's context object after the call (see EnsureLoader)
 LoadAny(h, st, sid, lctx, G, ch) ==
   LET d  == h[sid]
       ct == ClassNames(ch)
       en == EnsureLoader(d, lctx, G, ct)
-  IN IF en.exc # "-" THEN LR(h, st, 0, en.exc, en.dev, "none")
+  IN WithCtx(
+     IF en.exc # "-" THEN LR(h, st, 0, en.exc, en.dev, "none")
      ELSE LET h1 == [h EXCEPT ![sid].meta.has = TRUE] IN        \* _get_class_name -> _get_create_meta: setdefault('!!meta', {})
           IF d.meta.cls = NoIdent \/ ~d.meta.has
           THEN LR(h1, st, 0, "ValueError", en.dev, "none")       \* KeyError -> 'Class name not found'
@@ -321,10 +353,11 @@ LoadAny(h, st, sid, lctx, G, ch) ==
                ELSE IF c.cls = "SavableFuture" THEN RecreateFuture(h1, st, sid, en.ldr, en.dev)
                ELSE IF c.cls \notin ct THEN LR(h1, st, 0, "AttributeError", en.dev, en.ldr)
                ELSE \* Savable.recreate_from: cls.__new__(cls); load_instance_state: self._ensure_persist_configured();
-                    \* load_members(self._auto_persist, ...)
+                    \* load_members(self._auto_persist, ...): the members get the EXTENDED context (a copy that carries en.ldr)
                     LET nid == Len(h1) + 1
                         e   == EnsureConfigured(Append(h1, Entry("obj", c.cls, "-")), st, ch, nid)
-                    IN LoadMembers(e.h, e.st, nid, sid, InOrder(PersistedNow(e.st, ch, c.cls)), en.ldr, G, ch, en.dev \cup e.dev)
+                    IN LoadMembers(e.h, e.st, nid, sid, InOrder(PersistedNow(e.st, ch, c.cls)), en.ldr, G, ch, en.dev \cup e.dev),
+     en.ctx)
 
 (* ----------------------------------------------------------------------------------------------- *)
 (* descriptions: sets of <<path, kind, detail>> (all strings, so that any two are comparable)      *)
@@ -386,12 +419,14 @@ Mutate(h, ids) ==
      ELSE IF i \in ids /\ h[i].t = "fut" /\ h[i].v = "PENDING" THEN [h[i] EXCEPT !.v = "FINISHED", !.res = Str("late")]
      ELSE h[i]]
 
-\* making the class name of a saved state unknown
+\* making the class name of a saved state - or the loader it records - unknown (the plugin that provided it is gone)
 Tamper(h, sid, how) ==
   CASE how = "noattr"    -> [h EXCEPT ![sid].meta.cls = <<@[1], "Nope">>]        \* right format, no such object
     [] how = "malformed" -> [h EXCEPT ![sid].meta.cls = <<"X", @[2]>>]           \* no loader understands the format
     [] how = "nocls"     -> [h EXCEPT ![sid].meta.cls = NoIdent]                 \* no 'class_name' key
     [] how = "nometa"    -> [h EXCEPT ![sid].meta = NoMeta]                      \* no '!!meta' key
+    [] how = "noldr"     -> [h EXCEPT ![sid].meta.ldrUser = <<@[1], "Nope">>]    \* the recorded loader: right format, no such object
+    [] how = "badldr"    -> [h EXCEPT ![sid].meta.ldrUser = <<"X", @[2]>>]       \* the recorded loader: a format nobody understands
     [] how = "nested"    -> [i \in 1..Len(h) |->                                 \* the nested saved states directly below
                                IF i \in {h[sid].attrs[n].p : n \in {m \in AllNames : h[sid].attrs[m].k = "ref"}}
                                THEN [h[i] EXCEPT !.meta.cls = <<@[1], "Nope">>] ELSE h[i]]
@@ -401,36 +436,52 @@ Tamper(h, sid, how) ==
 \* the object one must get back: the declared members, as they were when save() was called
 Want(i) == Facts(Build(i), 1, "o", {}, PersistedDecl(i.chain, i.t))
 \* the loader that must resolve the class: the load context's, else the one the state was saved with, else the global one
-ExpectedLoader(i) == IF LoadCtx(i.ldr) # "none" THEN LoadCtx(i.ldr)
-                     ELSE IF SaveCtx(i.ldr) # "none" THEN SaveCtx(i.ldr) ELSE Global(i.ldr)
+\* (cl = loader the CALLER put into the load context, sl = loader of the save context the state was saved with, "none" = none)
+Precedence(cl, sl, G) == IF cl # "none" THEN cl ELSE IF sl # "none" THEN sl ELSE G
+ExpectedLoader(i) == Precedence(LoadCtx(i.ldr), SaveCtx(i.ldr), Global(i.ldr))
+PriorSaveCtx(p) == IF p = "custom" THEN "C" ELSE "none"
 OfKind(fs, ks) == {f \in fs : f[2] \in ks}
 PlainKinds == {"plain", "none", "str", "absent"}
+\* the load context the caller supplies to every load of the session
+Ctx0(i) == IF LoadCtx(i.ldr) # "none" THEN LoadCtx(i.ldr) ELSE IF i.lc = "shared" THEN "none" ELSE "absent"
 
 Run(i) ==
   LET G    == Global(i.ldr)
       sctx == SaveCtx(i.ldr)
-      lctx == LoadCtx(i.ldr)
+      cx0  == Ctx0(i)
       ch   == i.chain
       st0  == ClassStore(ch)
+      \* a bundle loaded earlier through the same load context: an N1 saved with its OWN save context
+      hq   == NewN1(<<>>, "q").h
+      qs   == SaveAny(hq, st0, 1, PriorSaveCtx(i.prior), G, ch)
+      ql   == LoadAny(qs.h, qs.st, qs.r, cx0, G, ch)
+      pri  == IF i.prior = "none" THEN [exc |-> "-", used |-> "none", dev |-> {}, ctx |-> cx0]
+              ELSE IF qs.exc # "-" THEN [exc |-> qs.exc, used |-> "none", dev |-> qs.dev, ctx |-> cx0]
+              ELSE [exc |-> ql.exc, used |-> ql.used, dev |-> qs.dev \cup ql.dev, ctx |-> ql.ctx]
+      cx1  == pri.ctx
       \* order of use: an instance of ANOTHER class of the chain (all its members plain values) is saved and loaded first
       hp   == BuildOf(i.first, [n \in Names |-> "value"])
       ps   == SaveAny(hp, st0, 1, sctx, G, ch)
-      pl   == LoadAny(ps.h, ps.st, ps.r, lctx, G, ch)
-      pre  == IF i.first = 0 THEN [st |-> st0, exc |-> "-", dev |-> {}]
-              ELSE IF ps.exc # "-" THEN [st |-> ps.st, exc |-> ps.exc, dev |-> ps.dev]
-              ELSE [st |-> pl.st, exc |-> pl.exc, dev |-> ps.dev \cup pl.dev]
+      pl   == LoadAny(ps.h, ps.st, ps.r, cx1, G, ch)
+      pre  == IF i.first = 0 THEN [st |-> st0, exc |-> "-", dev |-> {}, ctx |-> cx1]
+              ELSE IF ps.exc # "-" THEN [st |-> ps.st, exc |-> ps.exc, dev |-> ps.dev, ctx |-> cx1]
+              ELSE [st |-> pl.st, exc |-> pl.exc, dev |-> ps.dev \cup pl.dev, ctx |-> pl.ctx]
+      cx2  == pre.ctx
       h0   == Build(i)
       orig == Reach(h0, 1)
       s1   == SaveAny(h0, pre.st, 1, sctx, G, ch)
       ht   == Tamper(s1.h, s1.r, i.unk)
       hm   == Mutate(ht, orig)
-      none == [h |-> s1.h, st |-> s1.st, r |-> 0, exc |-> "NotSaved", dev |-> {}, used |-> "none"]
-      ld   == IF s1.exc # "-" THEN none ELSE LoadAny(hm, s1.st, s1.r, lctx, G, ch)      \* after the original moved on
-      ld0  == IF s1.exc # "-" THEN none ELSE LoadAny(ht, s1.st, s1.r, lctx, G, ch)      \* had it not moved on
+      none == [h |-> s1.h, st |-> s1.st, r |-> 0, exc |-> "NotSaved", dev |-> {}, used |-> "none", ctx |-> cx2]
+      ld   == IF s1.exc # "-" THEN none ELSE LoadAny(hm, s1.st, s1.r, cx2, G, ch)      \* after the original moved on
+      ld0  == IF s1.exc # "-" THEN none ELSE LoadAny(ht, s1.st, s1.r, cx2, G, ch)      \* had it not moved on
+      \* had nothing gone through the context before (the same evaluation when the context is as the caller made it)
+      ldF  == IF s1.exc # "-" THEN none ELSE IF cx2 = cx0 THEN ld ELSE LoadAny(hm, s1.st, s1.r, cx0, G, ch)
       s2   == SaveAny(ld.h, ld.st, ld.r, sctx, G, ch)
       stEnd == IF s1.exc # "-" THEN s1.st ELSE IF ld.exc # "-" THEN ld.st ELSE s2.st
       facts  == IF ld.exc = "-" THEN Facts(ld.h, ld.r, "o", orig, Present(ld.h[ld.r])) ELSE {}
       facts0 == IF ld0.exc = "-" THEN Facts(ld0.h, ld0.r, "o", orig, Present(ld0.h[ld0.r])) ELSE {}
+      factsF == IF cx2 = cx0 THEN facts ELSE IF ldF.exc = "-" THEN Facts(ldF.h, ldF.r, "o", orig, Present(ldF.h[ldF.r])) ELSE {}
       stage == IF s1.exc # "-" THEN "save" ELSE IF ld.exc # "-" THEN "load" ELSE IF s2.exc # "-" THEN "resave" ELSE "ok"
       exc   == IF s1.exc # "-" THEN s1.exc ELSE IF ld.exc # "-" THEN ld.exc ELSE s2.exc
       resave == stage = "ok" /\ DictFacts(s2.h, s1.r, "s") = DictFacts(s2.h, s2.r, "s")
@@ -444,15 +495,25 @@ Run(i) ==
         MethodsRebound  |-> known => (stage = "ok" /\ OfKind(facts, {"meth"}) = OfKind(want, {"meth"})),
         NestedRecreated |-> known => (stage = "ok" /\ OfKind(facts, {"obj", "dict", "shared"}) = OfKind(want, {"obj", "dict", "shared"})),
         FutureState     |-> known => (stage = "ok" /\ OfKind(facts, {"fut", "exc"}) = OfKind(want, {"fut", "exc"})),
-        LoaderPrecedence |-> (s1.exc = "-" /\ ld.used # "none") => ld.used = ExpectedLoader(i),
+        \* every load of the session resolves the class through the loader ITS OWN bundle and the caller's context name
+        LoaderPrecedence |-> /\ (s1.exc = "-" /\ ld.used # "none") => ld.used = ExpectedLoader(i)
+                             /\ pri.used # "none" => pri.used = Precedence(LoadCtx(i.ldr), PriorSaveCtx(i.prior), G),
+        \* a load context is the caller's: loading through it leaves in it the loader the caller put there (none, if none), and
+        \* what a load gives does not depend on what was loaded through the same context before (the second conjunct is the
+        \* property on the loads of THIS session; the first is its inductive form: what the last load of the session leaves is
+        \* what the next load through that context - one beyond the bounded session - starts from)
+        ContextIsCallers |-> /\ (IF s1.exc = "-" THEN ld.ctx ELSE cx2) = cx0
+                             /\ s1.exc = "-" => (ld.exc = ldF.exc /\ ld.used = ldF.used /\ facts = factsF),
         \* using one class never adds members to another: no class ends up persisting more than it and its ancestors declared
         SetsIntact      |-> \A t \in 1..Len(ch) : PersistedNow(stEnd, ch, ChainClass(t)) \subseteq PersistedDecl(ch, t),
+        \* an unknown class - or an unknown recorded loader, where the recorded loader is the one to use - is a ValueError
         UnknownIsValueError |-> (~known /\ s1.exc = "-") => (stage = "load" /\ exc = "ValueError")]
-  IN [stage |-> stage, exc |-> exc, pre |-> pre.exc,
+  IN [stage |-> stage, exc |-> exc, pre |-> pre.exc, prior |-> pri.exc,
       facts |-> IF Detail THEN facts ELSE {},
       resave |-> resave, stable |-> stable,
-      used |-> IF s1.exc = "-" THEN ld.used ELSE "none",
-      dev |-> pre.dev \cup s1.dev \cup (IF s1.exc = "-" THEN ld.dev \cup (IF ld.exc = "-" THEN s2.dev ELSE {}) ELSE {}),
+      used |-> IF s1.exc = "-" THEN ld.used ELSE "none", priorUsed |-> pri.used,
+      ctx |-> IF s1.exc = "-" THEN ld.ctx ELSE cx2,
+      dev |-> pri.dev \cup pre.dev \cup s1.dev \cup (IF s1.exc = "-" THEN ld.dev \cup (IF ld.exc = "-" THEN s2.dev ELSE {}) ELSE {}),
       \* the declarative properties that do NOT hold on this instance
       bad |-> {p \in DOMAIN props : ~props[p]}]
 
@@ -466,20 +527,28 @@ Chains == UNION {[1..n -> Decls] : n \in 1..MaxChain}
 \* names that are not persisted are plain attributes of the original
 KindsFor(ch, t) == {k \in [Names -> Kinds] : \A n \in Names \ PersistedDecl(ch, t) : k[n] = "value"}
 HasNested(ch, t, k) == \E n \in PersistedDecl(ch, t) : k[n] \notin {"value", "none", "method", "tuple"}
-\* unknown class names are tried on the one-class chain that persists every name
-UnknownsFor(ch, t, k) == {"none"} \cup (IF Len(ch) = 1 /\ ch[1].way = "deco" /\ ch[1].names = Names
-                                         THEN {u \in Unknowns : u = "nested" => HasNested(ch, t, k)} ELSE {})
+\* unknown class names are tried on the one-class chain that persists every name; an unknown RECORDED LOADER where a loader
+\* is recorded and the load context names none (elsewhere the recorded loader is not what resolves the class)
+LoaderMatters(l) == SaveCtx(l) # "none" /\ LoadCtx(l) = "none"
+UnknownsFor(ch, t, k, l) == {"none"} \cup (IF Len(ch) = 1 /\ ch[1].way = "deco" /\ ch[1].names = Names
+                                            THEN {u \in Unknowns : /\ u = "nested" => HasNested(ch, t, k)
+                                                                   /\ u \in {"noldr", "badldr"} => LoaderMatters(l)} ELSE {})
 \* which other class of the chain is used first (0 = none)
 FirstsFor(ch, t) == {0} \cup {j \in 1..Len(ch) : (j < t /\ "parent" \in Orders) \/ (j > t /\ "child" \in Orders)}
+\* how the load context is supplied: as the loader configuration says (None, or a context that names a loader), or - where
+\* it names none - one loader-less context object for the whole session
+CtxsFor(l) == {"asis"} \cup (IF LoadCtx(l) = "none" THEN Ctxs ELSE {})
 ASSUME OnlyChains \subseteq Chains
 
 \* the instances of a chain: which class is instantiated x member kinds x loader configuration x unknown-class flavour x order of use
-InstsOf(ch) == UNION {UNION {{[chain |-> ch, t |-> t, kinds |-> k, ldr |-> l, unk |-> u, first |-> f]
-                               : l \in Loaders, u \in UnknownsFor(ch, t, k), f \in FirstsFor(ch, t)}
-                             : k \in KindsFor(ch, t)} : t \in 1..Len(ch)}
+\* x how the load context is supplied x what was loaded through it before
+InstsOf(ch) == UNION {UNION {{[chain |-> ch, t |-> t, kinds |-> k, ldr |-> l, unk |-> u, first |-> f, lc |-> c, prior |-> p]
+                               : u \in UnknownsFor(ch, t, k, l), f \in FirstsFor(ch, t), c \in CtxsFor(l), p \in {"none"} \cup Priors}
+                             : k \in KindsFor(ch, t), l \in Loaders} : t \in 1..Len(ch)}
 
 NoOut  == [dev |-> {}, bad |-> {}]
-NoInst == [chain |-> <<>>, t |-> 0, kinds |-> [n \in Names |-> "value"], ldr |-> "default", unk |-> "none", first |-> 0]
+NoInst == [chain |-> <<>>, t |-> 0, kinds |-> [n \in Names |-> "value"], ldr |-> "default", unk |-> "none", first |-> 0,
+           lc |-> "asis", prior |-> "none"]
 \* first the chain is chosen (one initial state per chain, so that TLC's workers share the universe), then the rest
 Init == /\ phase = "pick"
         /\ \E ch \in (IF OnlyChains # {} THEN OnlyChains ELSE Chains) : inst = [NoInst EXCEPT !.chain = ch]
@@ -503,6 +572,7 @@ C19_FutureState         == Checked => "FutureState" \notin out.bad
 C19_LoaderPrecedence    == Checked => "LoaderPrecedence" \notin out.bad
 C19_UnknownIsValueError == Checked => "UnknownIsValueError" \notin out.bad
 C19_SetsIntact          == Checked => "SetsIntact" \notin out.bad
+C19_ContextIsCallers    == Checked => "ContextIsCallers" \notin out.bad
 \* a violation of the property is never silent: it is explained by a deviation clause of the specification
 C19_Explained           == phase = "done" => (out.bad = {} \/ out.dev # {})
 \* at definition time (decorators only; hooks have not run) the two formulations of auto_persist inheritance agree
